@@ -197,6 +197,13 @@ def inline_crate(j):
                     stats['sites'].append('%s <- for_each' % f['name'])
                     bi += 1
                     continue
+            if t['t'] == 'call' and (t['callee'].get('def') or '') in ('std::iter::Iterator::any', 'std::iter::Iterator::all') and len(t['args']) == 2 \
+                    and str(t['dest'].get('ty', '')) == 'bool':
+                if _for_each_to_loop(f, bi, by_name, inline_fn, stack, depth, any_=t['callee']['def'].rsplit('::', 1)[1]):
+                    stats['inlined'] += 1
+                    stats['sites'].append('%s <- for_each' % f['name'])
+                    bi += 1
+                    continue
             if t['t'] == 'call' and (t['callee'].get('def') or '') == 'std::iter::Iterator::for_each' and len(t['args']) == 2:
                 if _for_each_to_loop(f, bi, by_name, inline_fn, stack, depth):
                     stats['inlined'] += 1
@@ -567,7 +574,12 @@ def _alias_fields(j):
             for fn_, ty in left_new:
                 same_new = [x for x in left_new if x[1] == ty]
                 same_old = [x for x in left_old if x[1] == ty]
-                if len(same_new) == 1 and len(same_old) == 1 and all_names.get(fn_) == {n}:
+                others = all_names.get(fn_, set()) - {n}
+                # the other holders of the new name may only be types the reference does not have (their field
+                # is renamed along, consistently everywhere — a new type's field names carry no meaning here),
+                # and none of them may already have a field of the old name
+                if len(same_new) == 1 and len(same_old) == 1 and all(
+                        o not in ref and not any(same_old[0][0] in v_.get('fields', []) for v_ in adts[o]) for o in others):
                     ren[fn_] = same_old[0][0]
     if not ren:
         return []
@@ -975,7 +987,7 @@ def _lower_option_combinator(f, bi, by_name, inline_fn, stack, depth):
     return True
 
 
-def _for_each_to_loop(f, bi, by_name, inline_fn, stack, depth, fold=False, try_=False):
+def _for_each_to_loop(f, bi, by_name, inline_fn, stack, depth, fold=False, try_=False, any_=None):
     """`iter.for_each(closure)` (std Iterator, closure built in this function, or a fn item) is the loop
     `while let Some(x) = iter.next() { closure(x) }`: rewrite the call into exactly the MIR shape of a
     `for` loop, with the closure body spliced in, so that rules see one form for both spellings."""
@@ -989,6 +1001,16 @@ def _for_each_to_loop(f, bi, by_name, inline_fn, stack, depth, fold=False, try_=
     if it_op.get('o') not in ('copy', 'move'):
         return False
     it_ty = it_op['pl']['ty']
+    if any_:
+        # `iter.any(|x| p)` / `iter.all(|x| p)` take the iterator by `&mut`: `loop { match iter.next() { Some(x) =>
+        # if p(x) [all: !p(x)] { break true [false] }, None => break false [true] } }`
+        if not it_ty.startswith('&mut '):
+            return False
+        it_ty = it_ty[5:]
+        # only a counted loop spelled this way (`(1..=n).any(|it| ..)`); over collections the predicate form is what
+        # the rules read (an order-insensitive sink, a derived guard)
+        if not it_ty.startswith(('std::ops::RangeInclusive<', 'std::ops::Range<')):
+            return False
     line = t.get('line')
     cont = t['to']
     if cont is None or cont < 0:
@@ -1005,7 +1027,7 @@ def _for_each_to_loop(f, bi, by_name, inline_fn, stack, depth, fold=False, try_=
             return False
         inline_fn(g, stack | {g['name']}, depth + 1)
         item_ty = g['locals'][3 if fold else 2]['ty']
-    if (fold or try_) and g is None:
+    if (fold or try_ or any_) and g is None:
         return False
     L = len(f['locals'])
     l_it, l_ref, l_opt, l_d, l_unit = L, L + 1, L + 2, L + 3, L + 4
@@ -1014,7 +1036,8 @@ def _for_each_to_loop(f, bi, by_name, inline_fn, stack, depth, fold=False, try_=
     B = len(f['blocks'])
     bH, bS, bU, bBody = B, B + 1, B + 2, B + 3
     pl = lambda l, ty, p=None: {'l': l, 'p': p or [], 'ty': ty}
-    blkH = {'cleanup': False, 'stmts': [{'s': 'assign', 'pl': pl(l_ref, '&mut ' + it_ty), 'rv': {'r': 'ref', 'mut': True, 'pl': pl(l_it, it_ty)}, 'line': line, 'exp': True}],
+    hdr_rv = {'r': 'use', 'a': dict(copy.deepcopy(it_op), o='copy')} if any_ else {'r': 'ref', 'mut': True, 'pl': pl(l_it, it_ty)}
+    blkH = {'cleanup': False, 'stmts': [{'s': 'assign', 'pl': pl(l_ref, '&mut ' + it_ty), 'rv': hdr_rv, 'line': line, 'exp': True}],
             'term': {'t': 'call', 'callee': {'def': 'std::iter::Iterator::next', 'args': [it_ty], 'resolved': True, 'path': '<%s as std::iter::Iterator>::next' % it_ty,
                                              'trait': 'std::iter::Iterator', 'self': it_ty, 'local': False, 'krate': 'core'},
                      'args': [{'o': 'move', 'pl': pl(l_ref, '&mut ' + it_ty)}], 'dest': pl(l_opt, 'std::option::Option<%s>' % item_ty), 'to': bS, 'line': line, 'exp': True}}
@@ -1029,13 +1052,17 @@ def _for_each_to_loop(f, bi, by_name, inline_fn, stack, depth, fold=False, try_=
         f['locals'].append({'ty': 'isize', 'adt': ''})
         f['locals'].append({'ty': '()', 'adt': ''})
         bBody += 3      # exit-ok block, result-switch block, exit-err block
+    if any_:
+        l_res = len(f['locals'])
+        f['locals'].append({'ty': 'bool', 'adt': ''})
+        bBody += 3      # exhaustion block, result-switch block, early-exit block
     if fold:
         acc_ty = g['locals'][2]['ty']
         l_acc = len(f['locals'])
         f['locals'].append({'ty': acc_ty, 'adt': ''})
         bBody += 1      # one extra block: the exit that hands the accumulator to fold's destination
     blkS = {'cleanup': False, 'stmts': [{'s': 'assign', 'pl': pl(l_d, 'isize'), 'rv': {'r': 'discr', 'pl': pl(l_opt, 'std::option::Option<%s>' % item_ty), 'adt': 'std::option::Option'}, 'line': line, 'exp': True}],
-            'term': {'t': 'switch', 'd': {'o': 'move', 'pl': pl(l_d, 'isize')}, 'targets': [['0', (B + 3) if (fold or try_) else cont], ['1', bBody]], 'otherwise': bU, 'line': line, 'exp': True}}
+            'term': {'t': 'switch', 'd': {'o': 'move', 'pl': pl(l_d, 'isize')}, 'targets': [['0', (B + 3) if (fold or try_ or any_) else cont], ['1', bBody]], 'otherwise': bU, 'line': line, 'exp': True}}
     blkU = {'cleanup': False, 'stmts': [], 'term': {'t': 'unreachable'}}
     item = {'o': 'move', 'pl': pl(l_opt, item_ty, [{'k': 'downcast', 'v': 1, 'n': 'Some'}, {'k': 'field', 'i': 0, 'n': '0'}])}
     f['blocks'].extend([blkH, blkS, blkU])
@@ -1054,6 +1081,18 @@ def _for_each_to_loop(f, bi, by_name, inline_fn, stack, depth, fold=False, try_=
         # B+5: Err -> dest = that result
         f['blocks'].append({'cleanup': False, 'stmts': [{'s': 'assign', 'pl': copy.deepcopy(t['dest']), 'rv': {'r': 'use', 'a': {'o': 'move', 'pl': pl(l_res, res_ty)}}, 'line': line, 'exp': True}],
                             'term': {'t': 'goto', 'to': cont}})
+    if any_:
+        bconst = lambda v: {'o': 'const', 'c': {'k': 'val', 'v': '1' if v else '0', 'ty': 'bool', 's': 'true' if v else 'false'}}
+        # B+3: exhaustion -> dest = false (any) / true (all)
+        f['blocks'].append({'cleanup': False, 'stmts': [{'s': 'assign', 'pl': copy.deepcopy(t['dest']), 'rv': {'r': 'use', 'a': bconst(any_ == 'all')}, 'line': line, 'exp': True}],
+                            'term': {'t': 'goto', 'to': cont}})
+        # B+4: switch on the predicate's result
+        stop, go = (B + 5, bH) if any_ == 'any' else (bH, B + 5)
+        f['blocks'].append({'cleanup': False, 'stmts': [],
+                            'term': {'t': 'switch', 'd': {'o': 'move', 'pl': pl(l_res, 'bool')}, 'targets': [['0', go]], 'otherwise': stop, 'line': line, 'exp': True}})
+        # B+5: early exit -> dest = true (any) / false (all)
+        f['blocks'].append({'cleanup': False, 'stmts': [{'s': 'assign', 'pl': copy.deepcopy(t['dest']), 'rv': {'r': 'use', 'a': bconst(any_ == 'any')}, 'line': line, 'exp': True}],
+                            'term': {'t': 'goto', 'to': cont}})
     if fn_item is not None:
         c = {'def': fn_item['path'], 'args': fn_item.get('args', []), 'resolved': False, 'path': fn_item['path'], 'local': True, 'krate': ''}
         f['blocks'].append({'cleanup': False, 'stmts': [], 'term': {'t': 'call', 'callee': c, 'args': [item], 'dest': pl(l_unit, '()'), 'to': bH, 'line': line, 'exp': False}})
@@ -1069,8 +1108,8 @@ def _for_each_to_loop(f, bi, by_name, inline_fn, stack, depth, fold=False, try_=
         else:
             env = {'o': 'move', 'pl': pl(cb_op['pl']['l'], cb_op['pl']['ty'])}
         cargs = [env, {'o': 'copy', 'pl': pl(l_acc, acc_ty)}, item] if fold else [env, item]
-        cdest = pl(l_acc, acc_ty) if fold else (pl(l_res, res_ty) if try_ else pl(l_unit, '()'))
-        stub = {'cleanup': False, 'stmts': stmts, 'term': {'t': 'call', 'callee': {'def': g['name'], 'path': g['name'], 'local': True}, 'args': cargs, 'dest': cdest, 'to': (B + 4) if try_ else bH, 'line': line, 'exp': False}}
+        cdest = pl(l_acc, acc_ty) if fold else (pl(l_res, res_ty) if try_ else pl(l_res, 'bool') if any_ else pl(l_unit, '()'))
+        stub = {'cleanup': False, 'stmts': stmts, 'term': {'t': 'call', 'callee': {'def': g['name'], 'path': g['name'], 'local': True}, 'args': cargs, 'dest': cdest, 'to': (B + 4) if (try_ or any_) else bH, 'line': line, 'exp': False}}
         f['blocks'].append(stub)
         if not _splice(f, bBody, g, 'fn'):
             return False
@@ -1080,7 +1119,8 @@ def _for_each_to_loop(f, bi, by_name, inline_fn, stack, depth, fold=False, try_=
                 if st_['s'] == 'assign' and st_['pl']['l'] == cl and not st_['pl']['p'] and st_['rv'].get('r') == 'agg' and st_['rv']['kind'].get('k') == 'closure':
                     st_['rv']['kind']['consumed'] = True     # survives copies of this body into callers
     # the original block: move the iterator into its slot and enter the loop
-    f['blocks'][bi]['stmts'].append({'s': 'assign', 'pl': pl(l_it, it_ty), 'rv': {'r': 'use', 'a': copy.deepcopy(it_op)}, 'line': line, 'exp': True})
+    if not any_:
+        f['blocks'][bi]['stmts'].append({'s': 'assign', 'pl': pl(l_it, it_ty), 'rv': {'r': 'use', 'a': copy.deepcopy(it_op)}, 'line': line, 'exp': True})
     if fold:
         f['blocks'][bi]['stmts'].append({'s': 'assign', 'pl': pl(l_acc, acc_ty), 'rv': {'r': 'use', 'a': copy.deepcopy(init_op)}, 'line': line, 'exp': True})
     # the unit result of for_each
